@@ -59,8 +59,23 @@ def c02():
     gen("C02.v", "C02 - coupled total derivatives are correct and identical in forward and reverse mode.  Property theorems only (statements printed by Coq from Real/AdjointProofs.v, BeamProofs.v, ComposeProofs.v, *Deriv.v)", imports, items)
 
 
+def c12():
+    imports = ("Scalar Rops Sums Coupling CouplingProofs Transfer TransferProofs")
+    items = [
+        ("C12_fixed_point_of_the_sweep_is_consistent_in_both_disciplines", "fixed_point_is_consistent", "u = S(A(u)) iff (loads = A(u) and u = S(loads)): at convergence the loads are those of the flow about the mesh deformed by u, and u is the response to these loads"),
+        ("C12_fixed_point_unique_hence_path_independent", "fixed_point_unique", "a contractive coupling has at most one fixed point, whatever solver, initial guess or history found it (state vectors of any size)"),
+        ("C12_converged_states_agree_to_tolerance", "converged_states_agree", "two states converged to tolerance eps (block Gauss-Seidel with / without Aitken, Newton, any linear solver) differ by at most 2 eps / (1 - q)"),
+        ("C12_flight_points_isolated", "multipoint_isolated", "the state of a flight point is a function of that point's inputs alone"),
+        ("C12_stiffness_scaling", "stiff_structure_small_displacement", "scaling the stiffness by k scales the displacements by 1/k ..."),
+        ("C12_stiff_limit", "stiff_limit", "... which vanish as k grows; with zero displacement the displacement transfer is the identity (C11_disp_zero_identity), i.e. the rigid analysis"),
+    ]
+    gen("C12.v", "C12 - the coupled aerostructural state is a consistent, path-independent fixed point.  Property theorems only (Real/CouplingProofs.v)", imports, items)
+
+
 if __name__ == "__main__":
     which = sys.argv[1]
+    if which == "C12":
+        c12(); sys.exit(0)
     if which == "C02":
         c02(); sys.exit(0)
     if which == "C01":
